@@ -24,6 +24,7 @@ type ReplaySpec struct {
 	PkgDir     string            `json:"pkg_dir"`    // package directory relative to the repository
 	Values     map[string]string `json:"values"`     // NAME -> SMT expression evaluated in the counter-model
 	Run        string            `json:"run"`        // test name
+	Static     bool              `json:"static"`     // the driver is a fixed scenario (no model values): run it whenever the obligation is not discharged
 }
 
 func LoadReplaySpecs(dir string) []ReplaySpec {
@@ -216,13 +217,15 @@ func RunReplay(spec ReplaySpec, r *Result, repo, verif, outDir string) *ReplayOu
 		names = append(names, n)
 		exprs = append(exprs, e)
 	}
-	vals, err := modelValues(r.File, exprs)
-	if err != nil {
-		out.Note = "model values unavailable: " + err.Error()
-		return out
-	}
-	for i, n := range names {
-		out.Values[n] = goValue(vals[exprs[i]])
+	if len(exprs) > 0 {
+		vals, err := modelValues(r.File, exprs)
+		if err != nil {
+			out.Note = "model values unavailable: " + err.Error()
+			return out
+		}
+		for i, n := range names {
+			out.Values[n] = goValue(vals[exprs[i]])
+		}
 	}
 	tsrc, err := os.ReadFile(filepath.Join(verif, "replay", spec.Template))
 	if err != nil {
